@@ -185,6 +185,11 @@ def bounds_grid_stratum(ctx, ws):
                 jobs.append((kind, r, lo, 1, "min-only"))          # max defaults to 1
             for hi in range(1, 6):
                 jobs.append((kind, r, 1, hi, "max-only"))          # min defaults to 1
+    # bounds beyond any internal window length (the name windows of the generated regex are {0,1000}): a count is a count
+    for r in (999, 1000, 1001, 1200, 2500):
+        for (lo, hi, form) in ((r, r, "int"), (r, r, "range"), (0, 5000, "range"), (r + 1, r + 5, "range"), (max(0, r - 3), r - 1, "range"), (1001, 3000, "range")):
+            jobs.append(("item", r, lo, hi, form))
+        jobs.append(("$and", r // 2, r // 2, r // 2, "int"))
     for i, (kind, r, lo, hi, form) in enumerate(jobs):
         if i % ctx.nshards != ctx.shard:
             continue
@@ -273,6 +278,9 @@ def nested_times_stratum(ctx, d):
                 cases.append(("single", kind, a, t))
     for form in range(6):
         cases.append(("anyorder", form, None, None))
+    for kind in ("$and", "$or"):
+        for t in (2, {"min": 1, "max": 2}, {"min": 2, "max": 3}):
+            cases.append(("same-op", kind, t, t))
     for i, (what, kind, a, t) in enumerate(cases):
         if i % ctx.nshards != ctx.shard:
             continue
@@ -289,6 +297,35 @@ def nested_times_stratum(ctx, d):
                     continue
                 d.prep, d.style = prep, f"nested-times/{kind[1:]}"
                 d.run_pattern(["push", {kind: [{"nop": {"times": a}}], "times": t}, "ret"], "base", True)
+                ctx.event("nested_times_cells")
+        elif what == "same-op":
+            # an operator nested in the SAME operator, both levels with the SAME bound: (push (mov add){T}){T} is not (push mov add){T}
+            inner = {kind: ["mov", "add"], "times": a}
+            pat = ["ret", {kind: ["push", inner], "times": t}, "leave"]
+            lo_ = a if isinstance(a, int) else a["min"]
+            hi_ = a if isinstance(a, int) else a["max"]
+            seqs = []
+            for outer_n in range(max(1, lo_), hi_ + 1):
+                for inner_n in range(lo_, hi_ + 1):
+                    seqs.append((["push"] + ["mov", "add"] * inner_n) * outer_n)           # the written nesting ($and)
+                    seqs.append(["push", "mov", "add"] * (outer_n * inner_n))             # what flattening would accept
+                    seqs.append((["push"] * inner_n + ["mov"] * inner_n) * outer_n)         # runs of alternatives ($or)
+                    seqs.append(["push", "mov", "add", "mov"] * outer_n)
+            seen = set()
+            for seq in seqs:
+                if tuple(seq) in seen or len(seq) > 40:
+                    continue
+                seen.add(tuple(seq))
+                insts, addr = [], 0x401000
+                for m in ["ret"] + seq + ["leave", "ret"]:
+                    insts.append(L.SInst(addr, m, [], None, None, 1))
+                    addr += 1
+                prep = dsl.Prepared(d.ws, insts, ctx.rng)
+                ctx.ran()
+                if not prep.verify(d.ws):
+                    continue
+                d.prep, d.style = prep, f"nested-times/same-operator/{kind[1:]}"
+                d.run_pattern(pat, "base", True)
                 ctx.event("nested_times_cells")
         else:
             form = kind
